@@ -3,7 +3,7 @@
 import json, os, subprocess, sys
 all_props = '--all' in sys.argv
 only = [a for a in sys.argv[1:] if not a.startswith('--')]
-seeds = sorted(d for d in os.listdir('/verif/seeded') if os.path.isdir('/verif/seeded/'+d))
+seeds = sorted(d for d in os.listdir('/verif/seeded') if os.path.isdir('/verif/seeded/'+d) and d[0] == 'C' and d[1:3].isdigit())  # seeded/not_covered holds the seeds recorded as out of reach
 assert subprocess.run('git -C /repo status --porcelain', shell=True, capture_output=True, text=True).stdout.strip() == '', '/repo not clean'
 import shutil; os.makedirs('/tmp/sweep-verif', exist_ok=True); shutil.copy('/verif/known_findings.json', '/tmp/sweep-verif/known_findings.json')
 summary = {}
